@@ -1,6 +1,10 @@
 use std::time::{Duration, SystemTime};
 
 pub fn duration_from_epoch_now() -> Duration {
+    #[cfg(feature = "verif-hooks")]
+    if let Some(t) = crate::verif_hooks::sim_now() {
+        return t;
+    }
     #[allow(clippy::expect_used)]
     SystemTime::now()
         .duration_since(SystemTime::UNIX_EPOCH)
